@@ -488,6 +488,36 @@ def run_model_shapefns(ctx):
         reqs.append({"op": "selectfn", "fn": "full", "shape": list(shape), "sv": list(sv), "id": len(reqs)})
         wants.append(want)
 
+    # ---- integer-array indexing, take, repeat with an array of counts (Np/Model/AdvIndexFns.lean)
+    def ixj(a):
+        a = numpy.asarray(a)
+        return {"shape": list(a.shape), "data": [int(x) for x in a.ravel()]}
+
+    for sh in [(4,), (2, 3), (2, 3, 4), (3, 1, 2)]:
+        nd = len(sh)
+        for _ in range(25 if ctx.quick else 200):
+            items = []
+            for d in sh[: int(irng.integers(1, nd + 1))]:
+                if irng.random() < .4:
+                    items.append(None)
+                else:
+                    ish = [(), (2,), (1,), (2, 1), (1, 2), (3,)][int(irng.integers(6))]
+                    lo, hi = (-d, d) if irng.random() < .85 else (-d - 1, d + 1)
+                    items.append(irng.integers(lo, hi, size=ish))
+            if all(it is None for it in items):
+                continue
+            key = tuple(slice(None) if it is None else it for it in items)
+            idx1({"fn": "mixed", "items": [None if it is None else ixj(it) for it in items]}, lambda a, key=key: a[key], sh)
+            reqs[-1]["op"] = "advindexfn"
+        for ax in range(nd):
+            for ish in [(), (2,), (2, 2), (0,)]:
+                ix = irng.integers(-sh[ax], sh[ax], size=ish)
+                idx1({"fn": "take", "ix": ixj(ix), "axis": ax}, lambda a, ix=ix, ax=ax: numpy.take(a, ix, axis=ax), sh)
+                reqs[-1]["op"] = "advindexfn"
+            for reps in [[int(x) for x in irng.integers(0, 3, size=sh[ax])], [2], [1] * sh[ax], [0] * sh[ax], [1, 2]]:
+                idx1({"fn": "repeats", "reps": reps, "axis": ax}, lambda a, reps=reps, ax=ax: numpy.repeat(a, reps, axis=ax), sh)
+                reqs[-1]["op"] = "advindexfn"
+
     bad = []
     for req, want, ans in zip(reqs, wants, run_driver(reqs)):
         ctx.count("model-shapefn")
